@@ -82,7 +82,7 @@ def gen(r, quick):
     order = [u["idx"] for u in units if u["kind"] != "mem"] + ["M"]
     r.shuffle(order)
     return dict(units=units, syms=syms, kind=kind, order=order, thin=r.random() < 0.3,
-                wrapopt=r.choice(["-Wl,--wrap={}", "-Wl,--wrap,{}", "-Wl,-wrap={}"]))
+                wrapopt=r.choice(["-Wl,--wrap={}", "-Wl,--wrap,{}", "-Wl,-wrap={}"]), repeat_wrap=r.random() < 0.2)
 
 
 def unit_src(case, u):
@@ -228,6 +228,9 @@ def build(ctx, case, d, rec):
     args += ["-Wl,--no-as-needed", "-Wl,--no-gc-sections"]
     for s in case["syms"]:
         args += case["wrapopt"].format(s["name"]).split(" ")
+    if case.get("repeat_wrap") and case["syms"]:
+        # build systems concatenate flag lists: the same --wrap given twice must mean the same as once
+        args += case["wrapopt"].format(case["syms"][0]["name"]).split(" ")
     for tok in case["order"]:
         if tok == "M":
             args.append(mainobj)
